@@ -41,7 +41,61 @@ pub struct UdpCfg {
     pub timeout_ms: u64,
     /// DnsRequestOptions::edns_payload_len (None = default)
     pub edns_payload: Option<u16>,
+    /// DnsRequestOptions::use_edns
+    pub use_edns: bool,
+    /// with_timeout(None): the builder's own default (5 s) instead of an explicit value
+    pub timeout_none: bool,
+    pub bind: Bind,
+    /// avoid_local_ports = every port 1024..=65535 (the port picker gives up and binds port 0)
+    pub avoid_all_ports: bool,
+    pub os_port: bool,
+    pub signer: SignerCfg,
+    /// answers of the environment to the first bind_udp calls (afterwards: success)
+    pub bind_faults: &'static [BindFault],
+    pub send_fault: SendFault,
 }
+
+#[derive(Clone, Copy, Debug, PartialEq, Eq)]
+pub enum Bind {
+    Default,
+    /// with_bind_addr(0.0.0.0:port): every transmission of every request leaves from this port
+    Fixed(u16),
+    /// with_bind_addr(0.0.0.0:0)
+    ZeroPort,
+}
+
+#[derive(Clone, Copy, Debug, PartialEq, Eq)]
+pub enum SignerCfg {
+    None,
+    /// with_signer(Some(..)) and an ordinary query: the signer must stay unused
+    UnusedForPlainQuery,
+    /// with_signer(Some(..)) and an IXFR query: the transport signs, replies must verify
+    SignedIxfr,
+}
+
+#[derive(Clone, Copy, Debug, PartialEq, Eq)]
+pub enum BindFault {
+    InUse,
+    Denied,
+    Other,
+}
+
+#[derive(Clone, Copy, Debug, PartialEq, Eq)]
+pub enum SendFault {
+    None,
+    /// send_to reports one octet less than it was given
+    Short,
+    Error,
+}
+
+pub const TSIG_SECRET: [u8; 32] = *b"c16-reference-tsig-secret-32-byt";
+pub const TSIG_KEY_NAME: &str = "key.example.";
+
+pub fn tsig_key() -> vref::tsig::Key {
+    vref::tsig::Key::new(TSIG_KEY_NAME, vref::tsig::Alg::Sha256, &TSIG_SECRET)
+}
+
+static ALL_PORTS: std::sync::OnceLock<Arc<std::collections::HashSet<u16>>> = std::sync::OnceLock::new();
 
 impl UdpCfg {
     /// retry interval the client has to use
@@ -58,7 +112,24 @@ impl UdpCfg {
 }
 
 const fn base_cfg() -> UdpCfg {
-    UdpCfg { name: "default", server: "192.0.2.53:53", nq: 1, max_retries: 3, req_interval_ms: 333, floor_ms: None, timeout_ms: 5000, edns_payload: None }
+    UdpCfg {
+        name: "default",
+        server: "192.0.2.53:53",
+        nq: 1,
+        max_retries: 3,
+        req_interval_ms: 333,
+        floor_ms: None,
+        timeout_ms: 5000,
+        edns_payload: None,
+        use_edns: true,
+        timeout_none: false,
+        bind: Bind::Default,
+        avoid_all_ports: false,
+        os_port: false,
+        signer: SignerCfg::None,
+        bind_faults: &[],
+        send_fault: SendFault::None,
+    }
 }
 
 pub fn configs() -> Vec<UdpCfg> {
@@ -71,7 +142,31 @@ pub fn configs() -> Vec<UdpCfg> {
         UdpCfg { name: "one-transmission", max_retries: 1, ..base_cfg() },
         UdpCfg { name: "five-transmissions-100ms", max_retries: 5, req_interval_ms: 50, floor_ms: Some(100), ..base_cfg() },
         UdpCfg { name: "interval-500-timeout-700", req_interval_ms: 500, timeout_ms: 700, ..base_cfg() },
+        // ---- audit round: every remaining knob of the builder / the request options / the
+        // environment the transmission path reads (explored over short schedules)
+        UdpCfg { name: "no-retries", max_retries: 0, ..base_cfg() },
+        UdpCfg { name: "timeout-builder-default", timeout_none: true, ..base_cfg() },
+        UdpCfg { name: "no-edns", use_edns: false, ..base_cfg() },
+        UdpCfg { name: "edns-payload-65535", edns_payload: Some(65535), ..base_cfg() },
+        UdpCfg { name: "bind-fixed-port", bind: Bind::Fixed(40000), ..base_cfg() },
+        UdpCfg { name: "bind-port-zero", bind: Bind::ZeroPort, ..base_cfg() },
+        UdpCfg { name: "avoid-all-ports", avoid_all_ports: true, ..base_cfg() },
+        UdpCfg { name: "os-port-selection", os_port: true, ..base_cfg() },
+        UdpCfg { name: "signer-unused", signer: SignerCfg::UnusedForPlainQuery, ..base_cfg() },
+        UdpCfg { name: "tsig-ixfr", signer: SignerCfg::SignedIxfr, ..base_cfg() },
+        UdpCfg { name: "bind-in-use-once", bind_faults: &[BindFault::InUse], ..base_cfg() },
+        UdpCfg { name: "bind-in-use-12-times", bind_faults: &[BindFault::InUse; 12], ..base_cfg() },
+        UdpCfg { name: "bind-denied-once", bind_faults: &[BindFault::Denied], ..base_cfg() },
+        UdpCfg { name: "bind-other-error", bind_faults: &[BindFault::Other], ..base_cfg() },
+        UdpCfg { name: "send-short", send_fault: SendFault::Short, ..base_cfg() },
+        UdpCfg { name: "send-error", send_fault: SendFault::Error, ..base_cfg() },
     ]
+}
+
+/// Configurations added in the audit round: explored over short schedules.
+pub fn is_audit_cfg(cfg: &UdpCfg) -> bool {
+    let pos = configs().iter().position(|c| c.name == cfg.name).unwrap_or(0);
+    pos >= 8
 }
 
 pub fn cfg_by_name(name: &str) -> Option<UdpCfg> {
@@ -113,7 +208,38 @@ pub enum Kind {
     /// a reply from the right source with the right id whose question section is the given
     /// ordered list (2 or 3 entries) of variants of the first asked question, see `Atom`
     Multi([Atom; 3], u8),
+    // ---- other permitted layouts / header values of the genuine reply (hand-built)
+    /// TC=1
+    Tc,
+    /// opcode NOTIFY in a response with the asked id and question
+    NotifyOpcode,
+    /// rcode SERVFAIL
+    Servfail,
+    /// the answer's owner name is a compression pointer to the question name
+    CompressedOwner,
+    /// three octets behind the last record
+    TrailingOctets,
+    /// genuine reply followed by a 4,200-byte record: larger than every receive buffer
+    Oversized4200,
+    /// two-question requests: the second question's name is written as first label + pointer
+    /// into the first question's name
+    SecondQCompressed,
+    // ---- transport-signed requests only
+    /// the genuine reply without a TSIG record
+    TsigUnsigned,
+    /// correctly shaped TSIG whose MAC has one bit flipped
+    TsigBadMac,
+    /// TSIG made with another secret under the same key name
+    TsigWrongKey,
+    /// TSIG computed without the request's MAC in the digest
+    TsigUnchained,
+    // ---- second-step family
+    /// the genuine reply to the FIRST request issued on this client (its id, its question)
+    LateToFirst,
 }
+
+pub const LAYOUT_KINDS: [Kind; 6] = [Kind::Tc, Kind::NotifyOpcode, Kind::Servfail, Kind::CompressedOwner, Kind::TrailingOctets, Kind::Oversized4200];
+pub const TSIG_KINDS: [Kind; 4] = [Kind::TsigUnsigned, Kind::TsigBadMac, Kind::TsigWrongKey, Kind::TsigUnchained];
 
 /// One entry of a composed question section, relative to the first asked question.
 #[derive(Clone, Copy, Debug, PartialEq, Eq, Hash)]
@@ -196,6 +322,29 @@ pub fn kinds_of(cfg: &UdpCfg) -> Vec<Kind> {
     if cfg.nq == 2 {
         v.extend(KINDS_2Q);
     }
+    if cfg.signer == SignerCfg::SignedIxfr {
+        v.extend(TSIG_KINDS);
+    }
+    v
+}
+
+/// Kinds explored in short schedules only (composed question sections, other layouts).
+pub fn special_kinds(cfg: &UdpCfg) -> Vec<Kind> {
+    let mut v = multi_kinds();
+    v.extend(LAYOUT_KINDS);
+    if cfg.nq == 2 {
+        v.push(Kind::SecondQCompressed);
+    }
+    v
+}
+
+fn all_named_kinds() -> Vec<Kind> {
+    let mut v: Vec<Kind> = KINDS.iter().chain(KINDS_2Q.iter()).copied().collect();
+    v.extend(multi_kinds());
+    v.extend(LAYOUT_KINDS);
+    v.push(Kind::SecondQCompressed);
+    v.extend(TSIG_KINDS);
+    v.push(Kind::LateToFirst);
     v
 }
 
@@ -204,7 +353,7 @@ impl Kind {
     pub fn code(self) -> u8 {
         match self {
             Kind::Multi(a, n) => 0x80 | (n << 5) | ((a[0] as u8 * 6 + a[1] as u8) & 0x1f),
-            k => KINDS.iter().chain(KINDS_2Q.iter()).position(|x| *x == k).unwrap_or(0x7f) as u8,
+            k => KINDS.iter().chain(KINDS_2Q.iter()).chain(LAYOUT_KINDS.iter()).chain(TSIG_KINDS.iter()).position(|x| *x == k).unwrap_or(0x7f) as u8,
         }
     }
     pub fn name(self) -> String {
@@ -239,10 +388,22 @@ impl Kind {
             Kind::Reversed => "questions-reversed",
             Kind::MixedPair => "name1-with-type2",
             Kind::Multi(..) => "questions[..]",
+            Kind::Tc => "tc-set",
+            Kind::NotifyOpcode => "notify-opcode",
+            Kind::Servfail => "servfail",
+            Kind::CompressedOwner => "compressed-answer-owner",
+            Kind::TrailingOctets => "trailing-octets",
+            Kind::Oversized4200 => "oversized-4200",
+            Kind::SecondQCompressed => "second-question-compressed",
+            Kind::TsigUnsigned => "tsig-missing",
+            Kind::TsigBadMac => "tsig-bad-mac",
+            Kind::TsigWrongKey => "tsig-wrong-secret",
+            Kind::TsigUnchained => "tsig-without-request-mac",
+            Kind::LateToFirst => "late-reply-to-first-request",
         }
     }
     pub fn from_name(s: &str) -> Option<Kind> {
-        KINDS.iter().chain(KINDS_2Q.iter()).copied().chain(multi_kinds()).find(|k| k.name() == s)
+        all_named_kinds().into_iter().find(|k| k.name() == s)
     }
 }
 
@@ -263,6 +424,42 @@ pub struct Case {
     /// very instant the retry timer fires (both `select!` branches ready)
     pub tie: bool,
     pub steps: Vec<Step>,
+    /// second-step family: another request was issued on the same client object before
+    pub first: Option<First>,
+}
+
+#[derive(Clone, Copy, Debug, PartialEq, Eq)]
+pub enum FirstMode {
+    /// it got its genuine reply
+    Completed,
+    /// nobody answered, it ran into the overall timeout
+    TimedOut,
+    /// its response stream was dropped after the first transmission
+    Cancelled,
+    /// it is still waiting while the judged request runs
+    InFlight,
+}
+
+#[derive(Clone, Copy, Debug, PartialEq, Eq)]
+pub struct First {
+    pub mode: FirstMode,
+    /// the judged request carries the same message id as the first one
+    pub same_id: bool,
+    /// ... and the same question
+    pub same_q: bool,
+}
+
+pub const FIRST_MODES: [FirstMode; 4] = [FirstMode::Completed, FirstMode::TimedOut, FirstMode::Cancelled, FirstMode::InFlight];
+
+impl FirstMode {
+    fn name(self) -> &'static str {
+        match self {
+            FirstMode::Completed => "completed",
+            FirstMode::TimedOut => "timed-out",
+            FirstMode::Cancelled => "cancelled",
+            FirstMode::InFlight => "in-flight",
+        }
+    }
 }
 
 impl Case {
@@ -275,7 +472,11 @@ impl Case {
                 Step::D { kind, back } => json!({"k": kind.name(), "back": back}),
             })
             .collect();
-        json!({"part": "udp", "cfg": self.cfg.name, "rand": self.rand, "tie": self.tie, "steps": steps})
+        let mut j = json!({"part": "udp", "cfg": self.cfg.name, "rand": self.rand, "tie": self.tie, "steps": steps});
+        if let Some(f) = self.first {
+            j["first_request"] = json!({"mode": f.mode.name(), "same_id": f.same_id, "same_question": f.same_q});
+        }
+        j
     }
     pub fn from_json(v: &Value) -> Option<Case> {
         let mut steps = vec![];
@@ -290,7 +491,15 @@ impl Case {
             }
         }
         let cfg = cfg_by_name(v["cfg"].as_str().unwrap_or("default"))?;
-        Some(Case { cfg, rand: v["rand"].as_bool()?, tie: v["tie"].as_bool().unwrap_or(false), steps })
+        let first = match v.get("first_request") {
+            Some(f) if f.is_object() => Some(First {
+                mode: FIRST_MODES.iter().copied().find(|m| Some(m.name()) == f["mode"].as_str())?,
+                same_id: f["same_id"].as_bool()?,
+                same_q: f["same_question"].as_bool()?,
+            }),
+            _ => None,
+        };
+        Some(Case { cfg, rand: v["rand"].as_bool()?, tie: v["tie"].as_bool().unwrap_or(false), steps, first })
     }
 }
 
@@ -393,9 +602,16 @@ struct Sock {
     queue: VecDeque<Planned>,
     examined: usize,
     sleep: Option<Pin<Box<tokio::time::Sleep>>>,
+    /// socket of the judged request (false: of the first request of the second-step family)
+    judged: bool,
+    /// position among the sockets of its request
+    ordinal: usize,
+    /// instant the arrival times of its queue are relative to
+    t0: tokio::time::Instant,
 }
 
 struct Shared {
+    /// start of the judged request
     t0: tokio::time::Instant,
     server: SocketAddr,
     plan: Vec<Planned>,
@@ -403,6 +619,26 @@ struct Shared {
     deliveries: Vec<Delivery>,
     recv_before_send: bool,
     truncated_by_buffer: usize,
+    // ---- environment faults
+    bind_faults: &'static [BindFault],
+    bind_calls: usize,
+    send_fault: SendFault,
+    /// local addresses the client asked to bind
+    locals: Vec<SocketAddr>,
+    // ---- second-step family
+    /// datagrams for the sockets of the first request
+    first_plan: Vec<Planned>,
+    first_t0: tokio::time::Instant,
+    /// the first request is being issued right now (sequential modes)
+    first_phase: bool,
+    /// the first request stays in flight: its sockets are those bound on ITS retry grid
+    first_in_flight: bool,
+    r_ms: u64,
+    first_request: Option<Vec<u8>>,
+    first_socks: usize,
+    judged_socks: usize,
+    /// case randomisation is on in this run
+    rand: bool,
 }
 
 #[derive(Clone)]
@@ -424,7 +660,35 @@ fn other_ip_for(server: SocketAddr) -> std::net::IpAddr {
 }
 
 /// Build the scripted datagram relative to the request observed on the socket.
-fn build(kind: Kind, req: &[u8], server: SocketAddr, marker: [u8; 4]) -> (Vec<u8>, SocketAddr) {
+fn build(kind: Kind, req: &[u8], server: SocketAddr, marker: [u8; 4], first_req: Option<&[u8]>, rand: bool) -> (Vec<u8>, SocketAddr) {
+    let (bytes, src) = build_unsigned(kind, req, server, marker, first_req, rand);
+    // the transport signed the request: every reply a server would produce is signed by the
+    // reference (RFC 8945: digest = request MAC | message | TSIG variables), except the kinds
+    // that are about a missing / wrong signature and the ones that are no messages at all
+    let Ok(sreq) = vref::tsig::split(req) else { return (bytes, src) };
+    let key = tsig_key();
+    let kname = vref::tsig::labels_of(TSIG_KEY_NAME);
+    let (time, mac) = (sreq.tsig.time, sreq.tsig.mac.clone());
+    let signed = |b: &[u8], k: &vref::tsig::Key, chain: bool| vref::tsig::sign(b, k, &kname, time, 300, if chain { Some(&mac[..]) } else { None });
+    let walkable = vref::wire::walk(&bytes).map(|w| w.consumed == bytes.len()).unwrap_or(false);
+    let out = match kind {
+        Kind::TsigUnsigned | Kind::GarbageRight | Kind::GarbageRightId | Kind::GarbageWrongSrc | Kind::QueryEcho | Kind::RecvError | Kind::TrailingOctets => bytes,
+        Kind::TsigBadMac => {
+            let mut b = signed(&bytes, &key, true);
+            // TSIG RDATA ends with MAC | original id (2) | error (2) | other len (2)
+            let p = b.len() - 7;
+            b[p] ^= 0x01;
+            b
+        }
+        Kind::TsigWrongKey => signed(&bytes, &vref::tsig::Key::new(TSIG_KEY_NAME, vref::tsig::Alg::Sha256, b"another-secret-another-secret-32"), true),
+        Kind::TsigUnchained => signed(&bytes, &key, false),
+        _ if walkable => signed(&bytes, &key, true),
+        _ => bytes,
+    };
+    (out, src)
+}
+
+fn build_unsigned(kind: Kind, req: &[u8], server: SocketAddr, marker: [u8; 4], first_req: Option<&[u8]>, rand: bool) -> (Vec<u8>, SocketAddr) {
     let (id, asked) = wirekit::request_view(req).expect("transmitted request is walkable");
     let q0 = asked.first().cloned().unwrap_or(Q { name: labels("www.example.com"), qtype: 1, qclass: 1 });
     let qlast = asked.last().cloned().unwrap_or(q0.clone());
@@ -515,6 +779,70 @@ fn build(kind: Kind, req: &[u8], server: SocketAddr, marker: [u8; 4]) -> (Vec<u8
                 .collect();
             (wirekit::response(id, &qs, &owner, marker), server)
         }
+        Kind::Tc => (wirekit::message(id, 0x8380, &asked, &owner, marker), server),
+        Kind::NotifyOpcode => (wirekit::message(id, 0xa180, &asked, &owner, marker), server),
+        Kind::Servfail => (wirekit::message(id, 0x8182, &asked, &owner, marker), server),
+        Kind::TsigUnsigned | Kind::TsigBadMac | Kind::TsigWrongKey | Kind::TsigUnchained => (genuine(), server),
+        Kind::CompressedOwner => {
+            // header + questions as in the genuine reply, then the answer with owner = pointer
+            // to offset 12 (the first question's name)
+            let g = genuine();
+            let w = vref::wire::walk(&g).expect("own reply walks");
+            let mut b = g[..w.answers[0].start].to_vec();
+            b.extend_from_slice(&[0xc0, 12, 0, 1, 0, 1, 0, 0, 0, 60, 0, 4]);
+            b.extend_from_slice(&marker);
+            (b, server)
+        }
+        Kind::TrailingOctets => {
+            let mut b = genuine();
+            b.extend_from_slice(&[0, 0, 0]);
+            (b, server)
+        }
+        Kind::Oversized4200 => {
+            let mut b = genuine();
+            b[7] = 2;
+            vref::wire::emit_name(&owner, &mut b);
+            b.extend_from_slice(&[0, 10, 0, 1, 0, 0, 0, 60]);
+            b.extend_from_slice(&4200u16.to_be_bytes());
+            b.extend(std::iter::repeat(0xcd).take(4200));
+            (b, server)
+        }
+        Kind::SecondQCompressed => {
+            // first question literally, the last one as <first label> + pointer to the second
+            // label of the first question's name (12 + 1 + len of its first label)
+            let mut b = Vec::new();
+            b.extend_from_slice(&id.to_be_bytes());
+            b.extend_from_slice(&[0x81, 0x80, 0, 2, 0, 1, 0, 0, 0, 0]);
+            vref::wire::emit_name(&q0.name, &mut b);
+            b.extend_from_slice(&q0.qtype.to_be_bytes());
+            b.extend_from_slice(&q0.qclass.to_be_bytes());
+            let first = qlast.name.first().cloned().unwrap_or_default();
+            b.push(first.len() as u8);
+            b.extend_from_slice(&first);
+            let ptr = 12 + 1 + q0.name.first().map(|l| l.len()).unwrap_or(0);
+            b.extend_from_slice(&[0xc0, ptr as u8]);
+            b.extend_from_slice(&qlast.qtype.to_be_bytes());
+            b.extend_from_slice(&qlast.qclass.to_be_bytes());
+            b.extend_from_slice(&[0xc0, 12, 0, 1, 0, 1, 0, 0, 0, 60, 0, 4]);
+            b.extend_from_slice(&marker);
+            (b, server)
+        }
+        Kind::LateToFirst => {
+            // what the server sends in answer to the FIRST request: its id, its question(s)
+            let fr = first_req.unwrap_or(req);
+            let (fid, mut fasked) = wirekit::request_view(fr).expect("first request is walkable");
+            // Both requests randomised their letter case independently. With probability 2^-13
+            // the two patterns coincide and the late reply would be an exact echo of the judged
+            // request; the scenario meant here is "a reply in the FIRST request's pattern, which
+            // is another one", so a coincidence is removed (keeps every run a function of its script).
+            if let (Some(fq), Some(q)) = (fasked.first_mut(), asked.first()) {
+                if rand && fq.name == q.name {
+                    fq.name = wirekit::flip_one_letter(&fq.name);
+                }
+            }
+            let fowner = fasked.first().map(|q| q.name.clone()).unwrap_or_default();
+            (wirekit::response(fid, &fasked, &fowner, marker), server)
+        }
         Kind::SubsetLast => (wirekit::response(id, &[qlast], &owner, marker), server),
         Kind::Reversed => {
             let mut qs = asked.clone();
@@ -550,9 +878,10 @@ impl DnsUdpSocket for SimUdp {
     fn poll_recv_from(&self, cx: &mut Context<'_>, buf: &mut [u8]) -> Poll<io::Result<(usize, SocketAddr)>> {
         let mut g = self.sh.lock().unwrap();
         let g = &mut *g;
-        let t0 = g.t0;
         let server = g.server;
+        let first_req = g.first_request.clone();
         let sock = &mut g.socks[self.idx];
+        let t0 = sock.t0;
         if sock.sent.is_empty() {
             g.recv_before_send = true;
             return Poll::Pending;
@@ -575,7 +904,8 @@ impl DnsUdpSocket for SimUdp {
         let at_us = (tokio::time::Instant::now() - t0).as_micros() as u64;
         let request = sock.sent.last().cloned().unwrap();
         let marker = [10, self.idx as u8, next.step as u8, next.kind.code()];
-        let (bytes, src) = build(next.kind, &request, server, marker);
+        let (bytes, src) = build(next.kind, &request, server, marker, first_req.as_deref(), g.rand);
+        let (judged, ordinal) = (sock.judged, sock.ordinal);
         let examined_before = sock.examined;
         if next.kind != Kind::RecvError {
             sock.examined += 1;
@@ -586,9 +916,17 @@ impl DnsUdpSocket for SimUdp {
             g.truncated_by_buffer += 1;
         }
         let bytes = bytes[..n].to_vec();
+        if !judged {
+            // the first request's own traffic is not what is judged
+            if next.kind == Kind::RecvError {
+                return Poll::Ready(Err(io::Error::other("scripted recv error")));
+            }
+            buf[..n].copy_from_slice(&bytes[..n]);
+            return Poll::Ready(Ok((n, src)));
+        }
         g.deliveries.push(Delivery {
             step: next.step,
-            sock: self.idx,
+            sock: ordinal,
             kind: next.kind,
             at_us,
             bytes: bytes.clone(),
@@ -605,10 +943,20 @@ impl DnsUdpSocket for SimUdp {
 
     fn poll_send_to(&self, _cx: &mut Context<'_>, buf: &[u8], _target: SocketAddr) -> Poll<io::Result<usize>> {
         let mut g = self.sh.lock().unwrap();
-        let t0 = g.t0;
+        let g = &mut *g;
+        if g.send_fault == SendFault::Error {
+            return Poll::Ready(Err(io::Error::other("scripted send error")));
+        }
         let sock = &mut g.socks[self.idx];
+        let t0 = sock.t0;
         sock.sent.push(buf.to_vec());
         sock.sent_at_us = (tokio::time::Instant::now() - t0).as_micros() as u64;
+        if !sock.judged && g.first_request.is_none() {
+            g.first_request = Some(buf.to_vec());
+        }
+        if g.send_fault == SendFault::Short {
+            return Poll::Ready(Ok(buf.len() - 1));
+        }
         Poll::Ready(Ok(buf.len()))
     }
 }
@@ -630,14 +978,41 @@ impl RuntimeProvider for SimNet {
     ) -> Pin<Box<dyn Send + Future<Output = io::Result<Self::Tcp>>>> {
         self.inner.connect_tcp(a, b, t)
     }
-    fn bind_udp(&self, _local: SocketAddr, _server: SocketAddr) -> Pin<Box<dyn Send + Future<Output = io::Result<SimUdp>>>> {
+    fn bind_udp(&self, local: SocketAddr, _server: SocketAddr) -> Pin<Box<dyn Send + Future<Output = io::Result<SimUdp>>>> {
         let sh = self.sh.clone();
         Box::pin(async move {
             let idx = {
                 let mut g = sh.lock().unwrap();
+                let g = &mut *g;
+                g.locals.push(local);
+                let call = g.bind_calls;
+                g.bind_calls += 1;
+                if let Some(f) = g.bind_faults.get(call) {
+                    return Err(match f {
+                        BindFault::InUse => io::Error::new(io::ErrorKind::AddrInUse, "scripted: address in use"),
+                        BindFault::Denied => io::Error::new(io::ErrorKind::PermissionDenied, "scripted: permission denied"),
+                        BindFault::Other => io::Error::other("scripted bind error"),
+                    });
+                }
+                // whose socket is it? (second-step family: the first request's sockets are those
+                // bound while it is being issued, or - when it stays in flight - on its retry grid)
+                let now = tokio::time::Instant::now();
+                let of_first = if g.first_in_flight {
+                    (now - g.first_t0).as_millis() as u64 % g.r_ms == 0
+                } else {
+                    g.first_phase
+                };
                 let idx = g.socks.len();
-                let queue = g.plan.iter().filter(|p| p.sock == idx).cloned().collect();
-                g.socks.push(Sock { sent: vec![], sent_at_us: 0, queue, examined: 0, sleep: None });
+                let (ordinal, queue, t0) = if of_first {
+                    let o = g.first_socks;
+                    g.first_socks += 1;
+                    (o, g.first_plan.iter().filter(|p| p.sock == o).cloned().collect(), g.first_t0)
+                } else {
+                    let o = g.judged_socks;
+                    g.judged_socks += 1;
+                    (o, g.plan.iter().filter(|p| p.sock == o).cloned().collect(), g.t0)
+                };
+                g.socks.push(Sock { sent: vec![], sent_at_us: 0, queue, examined: 0, sleep: None, judged: !of_first, ordinal, t0 });
                 idx
             };
             Ok(SimUdp { sh, idx })
@@ -664,14 +1039,52 @@ pub struct Obs {
     pub end_us: u64,
     pub tx_us: Vec<u64>,
     pub recv_before_send: bool,
+    /// local addresses passed to bind_udp (all requests of the run)
+    pub locals: Vec<SocketAddr>,
+    /// second-step family: how the first request ended
+    pub first_outcome: &'static str,
 }
 
+
+fn make_request(cfg: &UdpCfg, rand: bool, qname0: &str, id: Option<u16>) -> DnsRequest {
+    let mut opts = DnsRequestOptions::default();
+    opts.case_randomization = rand;
+    opts.retry_interval = Duration::from_millis(cfg.req_interval_ms);
+    opts.use_edns = cfg.use_edns;
+    if let Some(p) = cfg.edns_payload {
+        opts.edns_payload_len = p;
+    }
+    let qtype = if cfg.signer == SignerCfg::SignedIxfr { RecordType::IXFR } else { RecordType::A };
+    let mut req = if cfg.nq == 1 {
+        DnsRequest::from_query(Query::new(Name::from_ascii(qname0).unwrap(), qtype), opts)
+    } else {
+        // two questions, built by hand: names go out in the letter case given here and
+        // (with the option on) replies are held to exactly that case
+        let mut m = hickory_proto::op::Message::query();
+        m.add_query(Query::new(Name::from_ascii("wWw.eXample.com.").unwrap(), RecordType::A));
+        m.add_query(Query::new(Name::from_ascii("Mail.example.COM.").unwrap(), RecordType::AAAA));
+        if cfg.use_edns {
+            let mut e = hickory_proto::op::Edns::new();
+            if let Some(p) = cfg.edns_payload {
+                e.set_max_payload(p);
+            }
+            m.set_edns(e);
+        }
+        DnsRequest::new(m, opts)
+    };
+    if let Some(id) = id {
+        // the message id is the caller's: second-step cases force it
+        req.metadata.id = id;
+    }
+    req
+}
 
 pub fn execute(case: &Case, planned: &[Planned], rt: &mut tokio::runtime::Runtime) -> Obs {
     let holder: Arc<Mutex<Option<Arc<Mutex<Shared>>>>> = Arc::new(Mutex::new(None));
     let h2 = holder.clone();
     let rand = case.rand;
     let cfg = case.cfg.clone();
+    let first = case.first;
     let planned_v = planned.to_vec();
     let res = catch(|| {
         rt.block_on(async move {
@@ -684,44 +1097,118 @@ pub fn execute(case: &Case, planned: &[Planned], rt: &mut tokio::runtime::Runtim
                 deliveries: vec![],
                 recv_before_send: false,
                 truncated_by_buffer: 0,
+                bind_faults: cfg.bind_faults,
+                bind_calls: 0,
+                send_fault: cfg.send_fault,
+                locals: vec![],
+                first_plan: vec![],
+                first_t0: t0,
+                first_phase: false,
+                first_in_flight: false,
+                r_ms: cfg.r_ms(),
+                first_request: None,
+                first_socks: 0,
+                judged_socks: 0,
+                rand,
             }));
             *h2.lock().unwrap() = Some(sh.clone());
             let net = SimNet { sh: sh.clone(), inner: TokioRuntimeProvider::new() };
             let mut b = UdpClientStream::builder(cfg.server(), net)
-                .with_timeout(Some(Duration::from_millis(cfg.timeout_ms)))
-                .with_max_retries(cfg.max_retries);
+                .with_timeout(if cfg.timeout_none { None } else { Some(Duration::from_millis(cfg.timeout_ms)) })
+                .with_max_retries(cfg.max_retries)
+                .with_os_port_selection(cfg.os_port);
             if let Some(f) = cfg.floor_ms {
                 b = b.with_retry_interval_floor(f);
             }
-            let mut stream = b.build();
-            let mut opts = DnsRequestOptions::default();
-            opts.case_randomization = rand;
-            opts.retry_interval = Duration::from_millis(cfg.req_interval_ms);
-            if let Some(p) = cfg.edns_payload {
-                opts.edns_payload_len = p;
+            match cfg.bind {
+                Bind::Default => {}
+                Bind::Fixed(p) => b = b.with_bind_addr(Some(SocketAddr::new(std::net::Ipv4Addr::UNSPECIFIED.into(), p))),
+                Bind::ZeroPort => b = b.with_bind_addr(Some(SocketAddr::new(std::net::Ipv4Addr::UNSPECIFIED.into(), 0))),
             }
-            let req = if cfg.nq == 1 {
-                DnsRequest::from_query(Query::new(Name::from_ascii("www.example.com.").unwrap(), RecordType::A), opts)
-            } else {
-                // two questions, built by hand: names go out in the letter case given here and
-                // (with the option on) replies are held to exactly that case
-                let mut m = hickory_proto::op::Message::query();
-                m.add_query(Query::new(Name::from_ascii("wWw.eXample.com.").unwrap(), RecordType::A));
-                m.add_query(Query::new(Name::from_ascii("Mail.example.COM.").unwrap(), RecordType::AAAA));
-                if let Some(p) = cfg.edns_payload {
-                    let mut e = hickory_proto::op::Edns::new();
-                    e.set_max_payload(p);
-                    m.set_edns(e);
-                }
-                DnsRequest::new(m, opts)
+            if cfg.avoid_all_ports {
+                b = b.avoid_local_ports(ALL_PORTS.get_or_init(|| Arc::new((1024..=u16::MAX).collect())).clone());
+            }
+            let mut b = match cfg.signer {
+                SignerCfg::None => b.with_signer(None),
+                _ => b.with_signer(Some(
+                    hickory_proto::rr::TSigner::new(
+                        TSIG_SECRET.to_vec(),
+                        hickory_proto::rr::rdata::tsig::TsigAlgorithm::HmacSha256,
+                        Name::from_ascii(TSIG_KEY_NAME).unwrap(),
+                        300,
+                    )
+                    .unwrap(),
+                )),
             };
-            let r = stream.send_message(req).next().await;
+            let _ = &mut b;
+            let mut stream = b.build();
+
+            // ---- second-step family: another request on the same client object first
+            let mut first_outcome = "none";
+            let mut pending_first = None;
+            if let Some(f) = first {
+                let req_a = make_request(&cfg, rand, "www.example.com.", Some(0x5a5a));
+                {
+                    let mut g = sh.lock().unwrap();
+                    g.first_t0 = tokio::time::Instant::now();
+                    g.first_phase = true;
+                    if f.mode == FirstMode::Completed {
+                        g.first_plan = vec![Planned { step: 0, sock: 0, kind: Kind::Genuine, at_ms: 1 }];
+                    }
+                }
+                let mut a = stream.send_message(req_a);
+                match f.mode {
+                    FirstMode::Completed | FirstMode::TimedOut => {
+                        first_outcome = match a.next().await {
+                            Some(Ok(_)) => "ok",
+                            Some(Err(_)) => "error",
+                            None => "timeout",
+                        };
+                    }
+                    FirstMode::Cancelled => {
+                        // first transmission made, then the caller loses interest
+                        let _ = tokio::time::timeout(Duration::from_millis(1), a.next()).await;
+                        drop(a);
+                        first_outcome = "cancelled";
+                    }
+                    FirstMode::InFlight => {
+                        // transmit, then let the judged request start 7 ms later: the two retry
+                        // grids never meet
+                        let _ = tokio::time::timeout(Duration::from_millis(7), a.next()).await;
+                        sh.lock().unwrap().first_in_flight = true;
+                        pending_first = Some(a);
+                        first_outcome = "in-flight";
+                    }
+                }
+                sh.lock().unwrap().first_phase = false;
+            }
+
+            let t0 = tokio::time::Instant::now();
+            sh.lock().unwrap().t0 = t0;
+            let req = match first {
+                None => make_request(&cfg, rand, "www.example.com.", None),
+                Some(f) => make_request(&cfg, rand, if f.same_q { "www.example.com." } else { "ftp.example.com." }, Some(if f.same_id { 0x5a5a } else { 0x5a5b })),
+            };
+            let mut judged = stream.send_message(req);
+            let r = match pending_first.as_mut() {
+                None => judged.next().await,
+                Some(a) => {
+                    let mut a_done = false;
+                    loop {
+                        tokio::select! {
+                            biased;
+                            rb = judged.next() => break rb,
+                            _ = a.next(), if !a_done => { a_done = true; }
+                        }
+                    }
+                }
+            };
             let end_us = (tokio::time::Instant::now() - t0).as_micros() as u64;
-            (r, end_us)
+            (r, end_us, first_outcome)
         })
     });
     let sh = holder.lock().unwrap().take();
-    let (deliveries, tx_us, rbs) = match &sh {
+    let (deliveries, tx_us, rbs, locals) = match &sh {
         Some(sh) => {
             let mut g = sh.lock().unwrap();
             // drop pending Sleep objects while the runtime still exists
@@ -730,26 +1217,27 @@ pub fn execute(case: &Case, planned: &[Planned], rt: &mut tokio::runtime::Runtim
             }
             (
                 g.deliveries.clone(),
-                g.socks.iter().filter(|s| !s.sent.is_empty()).map(|s| s.sent_at_us).collect::<Vec<_>>(),
+                g.socks.iter().filter(|s| s.judged && !s.sent.is_empty()).map(|s| s.sent_at_us).collect::<Vec<_>>(),
                 g.recv_before_send,
+                g.locals.clone(),
             )
         }
-        None => (vec![], vec![], false),
+        None => (vec![], vec![], false, vec![]),
     };
     match res {
         Err(p) => {
             // a panic may leave the runtime in an odd state: use a fresh one from here on
             *rt = vsim::rt();
             let end_us = deliveries.last().map(|d| d.at_us).unwrap_or(0);
-            Obs { deliveries, outcome: Outcome::Panic(p), end_us, tx_us, recv_before_send: rbs }
+            Obs { deliveries, outcome: Outcome::Panic(p), end_us, tx_us, recv_before_send: rbs, locals, first_outcome: "panic" }
         }
-        Ok((r, end_us)) => {
+        Ok((r, end_us, first_outcome)) => {
             let outcome = match r {
                 Some(Ok(resp)) => Outcome::Ok(resp.as_buffer().to_vec()),
                 Some(Err(e)) => Outcome::Err(e.to_string()),
                 None => Outcome::None,
             };
-            Obs { deliveries, outcome, end_us, tx_us, recv_before_send: rbs }
+            Obs { deliveries, outcome, end_us, tx_us, recv_before_send: rbs, locals, first_outcome }
         }
     }
 }
@@ -820,7 +1308,11 @@ enum Class {
 
 fn classify(d: &Delivery, case: &Case) -> (Class, wirekit::Verdict) {
     let rand = case.rand;
-    let v = wirekit::judge_datagram(&d.bytes, d.src, case.cfg.server(), &d.request);
+    let mut v = wirekit::judge_datagram(&d.bytes, d.src, case.cfg.server(), &d.request);
+    if let Ok(sreq) = vref::tsig::split(&d.request) {
+        // the transport signed the request: the reply has to verify (reference verifier)
+        v.tsig_ok = Some(vref::tsig::verify_response(&d.bytes, &tsig_key(), sreq.tsig.time, &sreq.tsig.mac).is_ok());
+    }
     if d.kind == Kind::RecvError {
         return (Class::NoAcceptAbortOk, v);
     }
@@ -832,7 +1324,7 @@ fn classify(d: &Delivery, case: &Case) -> (Class, wirekit::Verdict) {
         } else {
             Class::MayAccept
         }
-    } else if v.first_failing(rand) == "case-mismatch" {
+    } else if matches!(v.first_failing(rand), "case-mismatch" | "bad-tsig") {
         Class::NoAcceptAbortOk
     } else {
         Class::MustSkip
@@ -955,6 +1447,8 @@ pub fn judge(case: &Case, planned: &[Planned], o: &Obs, l: &mut Local) -> Option
                 l.outcome(match d.kind {
                     Kind::RecvError => "obs:udp-recv-error-ends-query",
                     Kind::QueryEcho => "obs:udp-query-echo-ends-query",
+                    Kind::TsigUnsigned | Kind::TsigBadMac | Kind::TsigWrongKey | Kind::TsigUnchained => "obs:udp-reply-failing-tsig-verification-ends-query",
+                    _ if case.cfg.signer == SignerCfg::SignedIxfr && !case.rand => "obs:udp-reply-failing-tsig-verification-ends-query",
                     _ => "obs:udp-case-mismatch-ends-query",
                 });
             }
@@ -1064,6 +1558,24 @@ pub fn run_case(ctx: &Ctx, case: &Case, rt: &mut tokio::runtime::Runtime, l: &mu
     if case.cfg.name != "default" {
         l.outcome(&format!("udp:cfg:{}:{}", case.cfg.name, o.outcome_class()));
     }
+    if let Some(f) = case.first {
+        l.outcome(&format!("udp:second-step:first-{}:{}:then:{}", f.mode.name(), o.first_outcome, o.outcome_class()));
+    }
+    if is_audit_cfg(&case.cfg) {
+        // which local ports the client asked for (the numbers themselves are random)
+        let fixed = matches!(case.cfg.bind, Bind::Fixed(_));
+        let class = |a: &SocketAddr| match a.port() {
+            0 => "zero",
+            p if fixed && Bind::Fixed(p) == case.cfg.bind => "the-fixed-port",
+            1024..=u16::MAX => "picked-1024-65535",
+            _ => "below-1024",
+        };
+        let mut seen: Vec<&str> = o.locals.iter().map(class).collect();
+        seen.sort();
+        seen.dedup();
+        l.outcome(&format!("udp:local-ports:{}:{}", case.cfg.name, seen.join("+")));
+        l.outcome(&format!("udp:bind-calls:{}:{}", case.cfg.name, o.locals.len().min(13)));
+    }
     if case.steps.iter().any(|s| matches!(s, Step::D { kind: Kind::Multi(..), .. })) {
         l.outcome(&format!("udp:composed-question-section:rand-{}:{}", if case.rand { "on" } else { "off" }, o.outcome_class()));
     }
@@ -1133,6 +1645,9 @@ pub fn run(ctx: &Ctx) {
         let max_len: usize = match (cfg.name == "default", thorough) {
             (true, false) => 4,
             (true, true) => 5,
+            // configurations of the audit round: short schedules
+            (false, false) if is_audit_cfg(&cfg) => 2,
+            (false, true) if is_audit_cfg(&cfg) => 3,
             (false, false) => 3,
             (false, true) => 4,
         };
@@ -1167,11 +1682,11 @@ pub fn run(ctx: &Ctx) {
                 let mut run_seq = |steps: &[Step]| {
                     let selftest = fnv64(format!("{steps:?}").as_bytes()) % 8 == 0;
                     for rand in [false, true] {
-                        let case = Case { cfg: cfg.clone(), rand, tie: false, steps: steps.to_vec() };
+                        let case = Case { cfg: cfg.clone(), rand, tie: false, steps: steps.to_vec(), first: None };
                         run_case(ctx, &case, rt, l, Some(&totals), selftest);
                         // the tie placement is explored up to length 4
                         if has_tie_spot(steps) && steps.len() <= 4 {
-                            let case = Case { cfg: cfg.clone(), rand, tie: true, steps: steps.to_vec() };
+                            let case = Case { cfg: cfg.clone(), rand, tie: true, steps: steps.to_vec(), first: None };
                             run_case(ctx, &case, rt, l, Some(&totals), selftest);
                         }
                     }
@@ -1195,9 +1710,13 @@ pub fn run(ctx: &Ctx) {
     // least one such datagram, and (thorough) every schedule of length 3 with exactly one, over
     // all kinds addressed to the newest socket + wait; default and two-question configuration,
     // randomisation on and off.
-    for cfg in configs().into_iter().filter(|c| c.name == "default" || c.name == "two-questions") {
+    // The same family carries the other permitted layouts of the genuine reply (TC, NOTIFY opcode,
+    // SERVFAIL, compressed answer owner, trailing octets, a reply larger than any buffer, second
+    // question compressed against the first) and runs in the signed configuration as well.
+    for cfg in configs().into_iter().filter(|c| matches!(c.name, "default" | "two-questions" | "tsig-ixfr" | "no-edns")) {
+        let specials = special_kinds(&cfg);
         let mut syms = vec![Step::Retry];
-        syms.extend(kinds_of(&cfg).into_iter().chain(multi_kinds()).map(|k| Step::D { kind: k, back: 0 }));
+        syms.extend(kinds_of(&cfg).into_iter().chain(specials.iter().copied()).map(|k| Step::D { kind: k, back: 0 }));
         let max_len: usize = if thorough { 3 } else { 2 };
         let before = totals.executed.load(Ordering::SeqCst);
         ctx.par_run_init(
@@ -1206,13 +1725,13 @@ pub fn run(ctx: &Ctx) {
             |_| vsim::rt(),
             |u, l, rt| {
                 let mut run_seq = |steps: &[Step]| {
-                    let multis = steps.iter().filter(|s| matches!(s, Step::D { kind: Kind::Multi(..), .. })).count();
+                    let multis = steps.iter().filter(|s| matches!(s, Step::D { kind, .. } if specials.contains(kind))).count();
                     if multis == 0 || (steps.len() == 3 && multis != 1) {
                         return;
                     }
                     let selftest = fnv64(format!("{steps:?}").as_bytes()) % 8 == 0;
                     for rand in [false, true] {
-                        let case = Case { cfg: cfg.clone(), rand, tie: false, steps: steps.to_vec() };
+                        let case = Case { cfg: cfg.clone(), rand, tie: false, steps: steps.to_vec(), first: None };
                         run_case(ctx, &case, rt, l, Some(&totals), selftest);
                     }
                 };
@@ -1226,7 +1745,51 @@ pub fn run(ctx: &Ctx) {
             },
         );
         let done = totals.executed.load(Ordering::SeqCst) - before;
-        per_cfg.insert(format!("{}+composed-question-sections", cfg.name), json!({"schedules": done, "max_len": max_len, "symbols": syms.len(), "composed_kinds": multi_kinds().len()}));
+        per_cfg.insert(format!("{}+composed-question-sections", cfg.name), json!({"schedules": done, "max_len": max_len, "symbols": syms.len(), "composed_kinds": multi_kinds().len(), "special_kinds": specials.len()}));
+    }
+    // ---- second step: the judged request is issued on a client object that has already served
+    // another request (completed / timed out / cancelled / still in flight), from the same fixed
+    // local port, with the same or another message id and question; the late genuine reply to the
+    // FIRST request is one of the datagram kinds. Every schedule of length <= 2 (thorough 3) that
+    // contains it, over all kinds + wait, randomisation on and off.
+    {
+        let cfg = cfg_by_name("bind-fixed-port").unwrap();
+        let mut syms = vec![Step::Retry, Step::D { kind: Kind::LateToFirst, back: 0 }];
+        syms.extend(kinds_of(&cfg).into_iter().map(|k| Step::D { kind: k, back: 0 }));
+        let max_len: usize = if thorough { 3 } else { 2 };
+        let mut variants = vec![];
+        for mode in FIRST_MODES {
+            for same_id in [true, false] {
+                for same_q in [true, false] {
+                    variants.push(First { mode, same_id, same_q });
+                }
+            }
+        }
+        let before = totals.executed.load(Ordering::SeqCst);
+        ctx.par_run_init(
+            (variants.len() * syms.len()) as u64,
+            1,
+            |_| vsim::rt(),
+            |u, l, rt| {
+                let first = variants[u as usize / syms.len()];
+                let mut run_seq = |steps: &[Step]| {
+                    if !steps.iter().any(|s| matches!(s, Step::D { kind: Kind::LateToFirst, .. })) {
+                        return;
+                    }
+                    let selftest = fnv64(format!("{steps:?}").as_bytes()) % 8 == 0;
+                    for rand in [false, true] {
+                        let case = Case { cfg: cfg.clone(), rand, tie: false, steps: steps.to_vec(), first: Some(first) };
+                        run_case(ctx, &case, rt, l, Some(&totals), selftest);
+                    }
+                };
+                let mut seq = vec![syms[u as usize % syms.len()]];
+                if plannable(&cfg, &seq) {
+                    extend(&cfg, &syms, &mut seq, max_len, &mut run_seq);
+                }
+            },
+        );
+        let done = totals.executed.load(Ordering::SeqCst) - before;
+        per_cfg.insert("second-request-on-the-same-client".to_string(), json!({"schedules": done, "max_len": max_len, "first_request_variants": variants.len()}));
     }
     ctx.set("udp_configs", Value::Object(per_cfg));
     ctx.set("udp_schedules", json!(totals.executed.load(Ordering::SeqCst)));
